@@ -463,6 +463,20 @@ func seedFor(t *rapid.T, name string) []byte {
 		if guard.Try(func() { out = ir.Info.Encode() }) != nil {
 			t.Skip("not encodable")
 		}
+		if rapid.IntRange(0, 3).Draw(t, "extensionForm") == 0 {
+			// every lookup spelled through extension subtables, with
+			// occasional hostile records (extension of an extension, a
+			// record pointing at itself or at its neighbour, unknown types)
+			if e2, ok := lookups.Extensionize(out, kind, lookups.ExtOptions{Hostile: func(label string, n int) int {
+				if rapid.IntRange(0, 3).Draw(t, label+"Dev") != 0 {
+					return 0
+				}
+				return rapid.IntRange(0, n-1).Draw(t, label)
+			}}); ok {
+				out = e2
+				stats.Label("layout", "seed:extension-form")
+			}
+		}
 		return out
 	case "gpos-degenerate":
 		// valid GPOS tables whose records have size zero (all value formats 0)
